@@ -94,7 +94,7 @@ class C20(Prop):
         'with sync=True torch.distributed.barrier is replaced by a counter (no process group)',
     ]
     examples = {'quick': 600, 'thorough': 4000}
-    shards = {'quick': 2, 'thorough': 16}
+    shards = {'quick': 8, 'thorough': 16}
     required_labels = {'quick': ['nontrivial=True', 'raised=True', 'short_window=True', 'cleared=True', 'nested_clear=True'],
                        'thorough': ['nontrivial=True', 'raised=True', 'short_window=True', 'cleared=True', 'sync=True']}
 
